@@ -278,7 +278,10 @@ def provenance(fi: FuncInfo, expr, at_stmt=None, depth=12):
             for k in e.keywords:
                 go(k.value, at, chain + [name], d - 1)
             if isinstance(e.func, ast.Attribute):
-                go(e.func.value, at, chain + [name + "<recv>"], d - 1)
+                rd_ = dotted(e.func.value)
+                is_module = rd_ is not None and rd_.split(".")[0] in fi.module.imports and rd_.split(".")[0] not in fi.params
+                if not is_module:
+                    go(e.func.value, at, chain + [name + "<recv>"], d - 1)
             if not e.args and not e.keywords and not isinstance(e.func, ast.Attribute):
                 leaves.append((e, chain))
             return
